@@ -724,6 +724,25 @@ func c36Extra(r *Run) error {
 		}
 	}
 	r.table("C36/file-system-writers", len(bad) == 0 && n > 0, "every call of langlint that can change the file system is in rewriteFile or removeLeftovers", fmt.Sprintf("%d changing calls; elsewhere: %v", n, bad))
+	// names are found by listing (the trusted base speaks of os.ReadDir): path/filepath is used as path algebra only --
+	// Glob, Match, Walk read a name as a pattern or walk the disk, which no contract here accounts for
+	var impure []string
+	fsites := r.pkgCallsInto(lp, "path/filepath")
+	for _, s := range fsites {
+		switch s.Func[strings.LastIndex(s.Func, ".")+1:] {
+		case "Join", "Clean", "Ext", "Base", "Dir", "Split", "ToSlash", "FromSlash", "IsAbs", "VolumeName":
+		default:
+			impure = append(impure, s.Func+" at "+s.Pos)
+		}
+	}
+	r.table("C36/names-are-listed-not-matched", len(impure) == 0, "langlint uses path/filepath for path algebra only (leftovers are found by listing the directory, never by a pattern)", fmt.Sprintf("%d call sites into path/filepath; not algebra: %v", len(fsites), impure))
+	listed := false
+	for _, s := range sites {
+		if strings.HasPrefix(s.Func, lp+".removeLeftovers -> ") && strings.HasSuffix(s.Func, "os.ReadDir") {
+			listed = true
+		}
+	}
+	r.table("C36/leftovers-found-by-readdir", listed, "removeLeftovers lists the directory with os.ReadDir", "")
 	return nil
 }
 
@@ -814,6 +833,32 @@ func c32Extra(r *Run) error {
 	}
 	sort.Strings(bad)
 	r.table("C32/find-route-structure", len(bad) == 0, "FindRoute's only map range is the collection of candidates (which carries nothing between iterations but the list), the list is sorted canonically after it, and no clock or random source is consulted", strings.Join(bad, "; "))
+	// the canonical order is an order on what a route is -- its endpoint and method, the key of the route table --
+	// and on nothing that remembers when it was registered
+	var fields []string
+	okCmp := false
+	if sc := r.Prog.FuncDecls[rp+".sortCandidates"]; sc != nil && sc.Decl.Body != nil {
+		okCmp = true
+		scInfo := r.Prog.Pkgs[rp].TypesInfo
+		ast.Inspect(sc.Decl.Body, func(n ast.Node) bool {
+			se, ok := n.(*ast.SelectorExpr)
+			if !ok {
+				return true
+			}
+			if sel := scInfo.Selections[se]; sel != nil && sel.Kind() == types.FieldVal {
+				if strings.HasSuffix(types.TypeString(sel.Recv(), nil), "router.Route") {
+					if se.Sel.Name != "endpoint" && se.Sel.Name != "method" {
+						okCmp = false
+						fields = append(fields, se.Sel.Name)
+					}
+				}
+			}
+			return true
+		})
+	}
+	r.table("C32/canonical-order-reads-the-route-key", okCmp, "sortCandidates compares routes by endpoint and method only (the key under which the table holds them)", fmt.Sprintf("other fields read: %v", fields))
+	r.boundedGoTest("C32-tables", "for generated route tables and paths the route FindRoute chooses is the same for every registration order tried and for repeated calls, it matches the path on its own, and no matching route of the table has fewer path variables",
+		"every table of 2 to 4 endpoints out of 13 (1 079 tables; the pool has a long endpoint with few variables) x 17 paths (trailing slashes, empty segments, other case, variables) x 3 registration orders (thorough: every permutation) x 4 calls")
 	return nil
 }
 
